@@ -2,7 +2,7 @@ import TempestVerif.Gen.Sites
 /-
   C07 (clause audit) — CLOSED WORLD of record movement.  `Gen.Sites` is regenerated from /repo's source on every run by
   `translate/g5_sites.py`; the `expected…` tables below are the sites, gates and wiring that `Model.RecSM` /
-  `Model.LogLike` model (reviewed by hand against /repo @ 9130321).  Every theorem here is an OBLIGATION decided on the
+  `Model.LogLike` model (reviewed by hand against /repo @ 5a51476).  Every theorem here is an OBLIGATION decided on the
   generated tables: a new writer of a record key anywhere in the package, a new fancy index on a record array, a change
   of a blob gate, of the argument order between `Mutator.run` and the runner, of the statement skeleton of one MCMC pass
   or of `_log_like` makes the corresponding `decide` fail — "no movement site outside the model" is checked, not assumed.
@@ -143,6 +143,7 @@ def expectedFancySites : List (String × String × String × String) :=
    ("Resampler.run", "logl", "idx_resampled", "load"),
    ("Resampler.run", "blobs", "idx_resampled", "load"),
    ("Mutator.run", "u", "i", "load"),
+   ("Mutator.run", "u", "i", "load"),
    ("Mutator.run", "x", "infinite_idx", "store"),
    ("Mutator.run", "x", "idx", "load"),
    ("Mutator.run", "u", "infinite_idx", "store"),
@@ -241,5 +242,48 @@ def expectedLogLikeShape : List String :=
 
 /-- OBLIGATION: the branch skeleton of `_log_like` -/
 theorem C07_sites_logLikeShape : Gen.Sites.logLikeShape = expectedLogLikeShape := by rfl
+
+def expectedWarmupBody : List String :=
+  ["u = np.random.rand(self.n_particles, self.n_dim)",
+   "x = np.array([self.prior_transform(u[i]) for i in range(self.n_particles)])",
+   "logl, blobs = self.log_likelihood(x)",
+   "n_drawn = self.n_particles",
+   "while np.all(np.isinf(logl))",
+   "  if n_drawn >= 1000 * self.n_particles",
+   "    raise ValueError",
+   "  u = np.random.rand(self.n_particles, self.n_dim)",
+   "  x = np.array([self.prior_transform(u[i]) for i in range(self.n_particles)])",
+   "  logl, blobs = self.log_likelihood(x)",
+   "  n_drawn += self.n_particles",
+   "assignments = np.zeros(self.n_particles, dtype=int)",
+   "calls = self.state.get_current('calls') + n_drawn",
+   "self.state.update_current(…)",
+   "inf_logl_mask = np.isinf(logl)",
+   "if np.any(inf_logl_mask) or n_drawn > self.n_particles",
+   "  all_idx = np.arange(len(x))",
+   "  infinite_idx = all_idx[inf_logl_mask]",
+   "  finite_idx = all_idx[~inf_logl_mask]",
+   "  if len(infinite_idx) > 0",
+   "    idx = np.random.choice(finite_idx, size=len(infinite_idx), replace=True)",
+   "    x[infinite_idx] = x[idx]",
+   "    u[infinite_idx] = u[idx]",
+   "    logl[infinite_idx] = logl[idx]",
+   "    if self.have_blobs",
+   "      blobs[infinite_idx] = blobs[idx]",
+   "    self.state.set_current('x', x)",
+   "    self.state.set_current('u', u)",
+   "    self.state.set_current('logl', logl)",
+   "    if self.have_blobs",
+   "      self.state.set_current('blobs', blobs)",
+   "  n_finite = len(finite_idx)",
+   "  n_total = n_drawn",
+   "  logz = np.log(n_finite / n_total)",
+   "  self.state.set_current('logz', logz)",
+   "return"]
+
+/-- OBLIGATION: the statement skeleton of `Mutator.run`'s beta = 0 branch is the one `Model.RecSM.warmup` mirrors
+    (/repo 959029e): redraw while ALL draws are infinite, cap at 1000·n_particles (ValueError), one `update_current` of the
+    final batch, the copy guarded by `len(infinite_idx) > 0`, the blob moves under `self.have_blobs` -/
+theorem C07_sites_warmupBody : Gen.Sites.warmupBody = expectedWarmupBody := by rfl
 
 end Props.C07Sites
